@@ -4,7 +4,7 @@ import z3
 
 from . import smt
 from .smt import IS, VS, Val, I, B, ISq, VSq
-from .values import (VInt, VBool, VSeq, VNone, VTuple, VList, VRef, VAny, VConst, VRecord, Unsupported, fresh,
+from .values import (VInt, VBool, VSeq, VNone, VTuple, VList, VRef, VAny, VConst, VRecord, VOpt, Unsupported, fresh,
                      parse_type, box, unbox, wt, sym_value, is_bytes_fact, is_chars_fact, mk_vsq)
 from .engine import lit_seq, ite_val, exc_isa, _ids
 
@@ -67,6 +67,10 @@ def eval_call(eng, e, st):
             N = eng.as_iseq(st, eng.ev1(e.args[1], st))
             o = eng.as_int(st, eng.ev1(e.args[2], st))
             return [(st, VBool(smt.occ(F.t, N.t, o)))]
+        if fn in ("aes_enc", "aes_dec", "hmac_sha256", "sha256") and fn not in st.env:
+            vals = [eng.as_iseq(st, eng.ev1(a, st)).t for a in e.args]
+            f = {"aes_enc": smt.aes_enc, "aes_dec": smt.aes_dec, "hmac_sha256": smt.hmac256, "sha256": smt.sha256}[fn]
+            return [(st, VSeq(f(*vals), "bytes"))]
         if fn == "fits_bytes" and fn not in st.env:
             n = eng.as_int(st, eng.ev1(e.args[0], st))
             w = eng.as_int(st, eng.ev1(e.args[1], st))
@@ -129,6 +133,35 @@ def eval_call(eng, e, st):
     return out
 
 
+def cstruct_call(eng, st, fv, args, kwargs, node):
+    from . import cstructmodel as cm
+    from .extmodel import ext_call as ext
+    modname, inst, name = fv.py
+    module = eng.repo.module(modname)
+    defs = cm.module_cdefs(eng, module, inst)
+    eng.fr.assumed_used.add(f"dissect.cstruct read/dump model derived from the definitions loaded into {modname}.{inst}")
+    arg = eng.deref(st, args[0]) if args else None
+    if fv.what == "cenumtype" and isinstance(arg, (VInt, VBool)):
+        return [(st, cm.enum_value(name, inst, module, eng.as_int(st, arg)))]
+    if fv.what == "cenumtype" and isinstance(arg, VRecord) and arg.cls == "cenum":
+        return [(st, cm.enum_value(name, inst, module, arg.fields["value"].t))]
+    if arg is None:
+        if fv.what != "ctype":
+            raise Unsupported("cstruct type called without data")
+        return [(st, cm.new_struct(eng, st, defs, inst, module, name, kwargs))]
+    # parse from bytes or from a file object
+    if isinstance(arg, VSeq):
+        [(st, fref)] = ext(eng, st, "io.BytesIO", [arg], {}, node)
+    elif isinstance(args[0], VRef) and isinstance(st.heap.get(args[0].ident), dict) and st.heap[args[0].ident].get("__kind__") == "file":
+        fref = args[0]
+    else:
+        raise Unsupported(f"cstruct parse from {arg!r}")
+    if fv.what == "ctype":
+        return [(st, cm.read_struct(eng, st, fref, defs, inst, module, name, node))]
+    ty = name
+    return [(st, cm.read_value(eng, st, fref, defs, inst, module, ty, None, {}, node))]
+
+
 def join_genexp(eng, e, st):
     """sep.join(random.choice(chars) for _ in range(n)) with sep == "": a string of n characters drawn from chars."""
     ge = e.args[0]
@@ -183,6 +216,8 @@ def apply_callable(eng, st, fv, args, kwargs, node):
         return contract_call(eng, st, fv.py, args, kwargs, node)
     if w == "class":
         return class_call(eng, st, fv.py, args, kwargs, node)
+    if w in ("ctype", "cenumtype", "cprim"):
+        return cstruct_call(eng, st, fv, args, kwargs, node)
     if w == "ext":
         return ext_call(eng, st, fv.py, args, kwargs, node)
     if w == "lambda":
@@ -218,6 +253,15 @@ def builtin_call(eng, st, name, args, kwargs, node):
                 return [(st, VInt(0))]
             if isinstance(cell, dict) and cell.get("__kind__") == "dict":
                 return [(st, VInt(VS.len(cell["keys"])))]
+            if isinstance(cell, dict) and str(cell.get("__class__", "")).startswith("cstruct:"):
+                from . import cstructmodel as cm
+                modname, inst = cell["__cdefs__"]
+                defs = cm.module_cdefs(eng, eng.repo.module(modname), inst)
+                return [(st, VInt(cm.struct_size(eng, st, defs, cell["__class__"].split(":", 1)[1], cell)))]
+        if isinstance(v, VOpt):
+            if not eng.spec_mode:
+                eng.implicit_error(st, z3.Not(v.isnone), "TypeError", node, "len-of-None")
+            return builtin_call(eng, st, "len", [v.value], kwargs, node)
         if isinstance(v, VAny):
             t = v.t
             if not eng.spec_mode:
@@ -512,6 +556,29 @@ RECORD_BASES = {"ClientC2Data": ("C2Data",), "ServerC2Data": ("C2Data",)}
 
 def method_call(eng, st, recv, name, args, kwargs, node):
     r = eng.deref(st, recv)
+    if isinstance(r, VConst) and r.what == "aescipher":
+        _k, key, iv = r.py
+        data = eng.as_iseq(st, args[0], node)
+        eng.implicit_error(st, IS.len(data.t) % 16 == 0, "ValueError", node, "AES-CBC-unaligned-data")
+        f = smt.aes_enc if name == "encrypt" else smt.aes_dec if name == "decrypt" else None
+        if f is None:
+            raise Unsupported(f"AES method {name}")
+        if "aes_calls" in st.env:
+            st.env["aes_calls"] = VInt(st.env["aes_calls"].t + 1)
+        return [(st, VSeq(f(key.t, iv.t, data.t), "bytes"))]
+    if isinstance(r, VConst) and r.what == "hashobj":
+        if r.py[0] == "hmac":
+            dg = smt.hmac256(r.py[1].t, r.py[2].t)
+        else:
+            dg = smt.sha256(r.py[1].t)
+        if name == "digest":
+            return [(st, VSeq(dg, "bytes"))]
+        if name == "hexdigest":
+            return [(st, VSeq(smt_fn("hex_of", ISq, ISq)(dg), "str"))]
+        raise Unsupported(f"hash method {name}")
+    if isinstance(r, VOpt):
+        eng.implicit_error(st, z3.Not(r.isnone), "AttributeError", node, "method-of-None")
+        return method_call(eng, st, r.value, name, args, kwargs, node)
     if isinstance(recv, VRef):
         cell = st.heap.get(recv.ident)
         if isinstance(cell, dict):
@@ -523,6 +590,14 @@ def method_call(eng, st, recv, name, args, kwargs, node):
             if k == "dict":
                 from .heapmodel import dict_method
                 return dict_method(eng, st, recv, cell, name, args, kwargs, node)
+            if k == "obj" and str(cell.get("__class__", "")).startswith("cstruct:"):
+                from . import cstructmodel as cm
+                modname, inst = cell["__cdefs__"]
+                defs = cm.module_cdefs(eng, eng.repo.module(modname), inst)
+                sname = cell["__class__"].split(":", 1)[1]
+                if name == "dumps":
+                    return [(st, cm.dumps_struct(eng, st, defs, sname, cell, node))]
+                raise Unsupported(f"cstruct method {name}")
             if k == "obj":
                 return obj_method(eng, st, recv, cell, name, args, kwargs, node)
         if isinstance(cell, (VSeq, VList)):
@@ -543,7 +618,7 @@ def method_call(eng, st, recv, name, args, kwargs, node):
             return [(st, VRecord(r.cls, f))]
         if name == "_asdict":
             raise Unsupported("_asdict outside **")
-        return contract_call(eng, st, f"{RECORD_MODULE.get(r.cls, 'dissect.cobaltstrike.c2')}:{r.cls}.{name}",
+        return contract_call(eng, st, f"{record_module(r.cls)}:{r.cls}.{name}",
                              [r] + args, kwargs, node)
     if isinstance(r, VAny):
         raise Unsupported(f"method {name} on dynamically typed value")
@@ -551,6 +626,11 @@ def method_call(eng, st, recv, name, args, kwargs, node):
 
 
 RECORD_MODULE = {}
+
+
+def record_module(cls):
+    from .values import RECORDS
+    return RECORDS[cls][1] if cls in RECORDS else "dissect.cobaltstrike.c2"
 
 
 def file_method(eng, st, ref, cell, name, args, kwargs, node):
@@ -849,6 +929,8 @@ def contract_call(eng, st, target, args, kwargs, node):
     if c.assumed:
         fr.assumed_used.add(c.key)
     short = target.split(":")[1]
+    if "aes_calls" in st.env:
+        bound = dict(bound, aes_calls=st.env["aes_calls"])
     pre = st.fork()                 # pre-call snapshot for old()
     cs = st.fork()
     cs.env = dict(bound)
@@ -858,14 +940,31 @@ def contract_call(eng, st, target, args, kwargs, node):
         cs.assume(t)
     outs = []
     # exceptional outcomes
-    for (exc, when) in c.raises:
+    from .verify import mentions_aes
+    touches_aes = mentions_aes(c)
+    for (exc, when, ens) in c.raises:
         bad = st.fork()
         bs = bad.fork()
         bs.env = dict(bound)
+        bs.env["aes_calls"] = st.env.get("aes_calls", VInt(0))
         if when is not None:
             bad.assume(eng.truth(bs, eng.ev1(when, bs)))
         for m in c.modifies:
             havoc_target(eng, bad, bs, m)
+        if touches_aes and "aes_calls" in bad.env:
+            na = fresh("aes_calls", I)
+            bad.assume(na >= bad.env["aes_calls"].t)
+            if ens is not None:
+                bs2 = bad.fork()
+                bs2.env = dict(bound)
+                bs2.env["aes_calls"] = VInt(na)
+                saved = eng.fr.init_state
+                eng.fr.init_state = _with_env(st, dict(bound, aes_calls=st.env["aes_calls"]))
+                try:
+                    bad.assume(eng.truth(bs2, eng.ev1(ens, bs2)))
+                finally:
+                    eng.fr.init_state = saved
+            bad.env["aes_calls"] = VInt(na)
         eng.throw(bad, exc, node, f"raised by {short}")
     # normal outcome
     ns = st
@@ -888,6 +987,11 @@ def contract_call(eng, st, target, args, kwargs, node):
         res, facts = make_result(eng, ns, rty)
         ns.assume(*facts)
         cs2.env["result"] = res
+    if mentions_aes(c) and "aes_calls" in ns.env:
+        na = fresh("aes_calls", I)
+        ns.assume(na >= ns.env["aes_calls"].t)
+        ns.env["aes_calls"] = VInt(na)
+        cs2.env["aes_calls"] = VInt(na)
     saved_init = fr.init_state
     fr.init_state = _with_env(pre, bound)
     try:
